@@ -14,6 +14,7 @@
 From Coq Require Import List Arith Bool.
 From SK Require Import Lib.Base Model.Objects Proofs.ObjectsProofs.
 Import ListNotations.
+From SK Require Import Check.ObjectsCheck Proofs.CheckerSoundness.
 
 
 Theorem C10_wellformed_heaps : forall h : heap, reachable h -> heap_ok h.
@@ -85,6 +86,9 @@ Proof. exact @hyperparams_only_by_set. Qed.
 Theorem C10_scorer_references_never_change : forall (h : heap) (o : op) (i : nat) (d : detector), nth_error (detectors h) i = Some d -> exists d' : detector, nth_error (detectors (fst (step h o))) i = Some d' /\ d_scorers d' = d_scorers d.
 Proof. exact @scorer_refs_never_change. Qed.
 
+Theorem C10_twin_checker_sound : forall (ops : list op) (outs : list out) (sd ss : list (nat * bool)), hist_ok (ops, outs, (sd, ss)) = true -> snd (run empty ops) = outs /\ summary (fst (run empty ops)) = (sd, ss).
+Proof. exact @hist_ok_sound. Qed.
+
 Print Assumptions C10_wellformed_heaps.
 Print Assumptions C10_observation_reads_only.
 Print Assumptions C10_unfitted_detector_refuses.
@@ -108,3 +112,4 @@ Print Assumptions C10_clone_is_unfitted_copy.
 Print Assumptions C10_clone_leaves_original.
 Print Assumptions C10_hyperparameters_change_only_by_set_params.
 Print Assumptions C10_scorer_references_never_change.
+Print Assumptions C10_twin_checker_sound.
